@@ -5,7 +5,7 @@ import ast
 import copy
 from typing import Dict, Iterable, List, Optional
 
-from .dataflow import expand, local_defs
+from .dataflow import clone, expand, local_defs
 
 
 class _Norm(ast.NodeTransformer):
@@ -48,7 +48,7 @@ class _Norm(ast.NodeTransformer):
 
 
 def norm(node) -> ast.AST:
-    return _Norm().visit(copy.deepcopy(node))
+    return _Norm().visit(clone(node))
 
 
 def text(node) -> str:
